@@ -438,7 +438,7 @@ func TestC08(t *testing.T) {
 		return
 	}
 
-	rapidCases(h, "random", env.PerShard(env.Pick(2400, 100000)), func(rt *rapid.T) pathCase {
+	rapidCases(h, "random", env.PerShard(env.Pick(16000, 300000)), func(rt *rapid.T) pathCase {
 		c := pathCase{Conns: rapid.IntRange(1, 2).Draw(rt, "conns"), Native: rapid.Bool().Draw(rt, "native"), Tree: "deep"}
 		m := refmodel.New(c.Conns)
 		populateDeep(m.Tree)
